@@ -10,9 +10,10 @@ import Wayfind.Proofs.IndexGuards
 /-! # C07 — no input makes the router panic
 The model is written with total list operations (`take`, `drop`, `getElem?`, truncated subtraction), so totality of
 the model is not the claim. The claim has three parts.
-(1) *Ledger* (generated obligation): the partial operations of the Rust source — index and slice expressions,
-`unwrap`/`expect`, subtractions — are counted per file on every run and must equal the sites this model accounts for;
-a new site breaks the obligation and starts the search for a failing input.
+(1) *Ledger* (a tripwire of the check, not a theorem — fifth session): the partial operations of the Rust source — index
+and slice expressions, `unwrap`/`expect`, subtractions — are counted per file on every run; a deviation from the pinned
+counts makes the check run all its suites at the thorough size as well (a count says nothing about the model, and every
+behaviour-preserving rewrite of those files changes it).
 (2) *Registry lookup cannot miss*: `check_constraint` unwraps `constraints.get(name)`; `C07_constraints_registered`
 shows that a successful insert only stores constraint names that are registered, and registrations are never removed
 (`C07_registry_grows`).
@@ -51,8 +52,6 @@ Status: **partial** — stack depth (recursion proportional to group nesting and
 `usize`/`i32` wrap-around (needs inputs ≥ 2^31 bytes) are outside any model; the slices of insert/find/delete (`prefix[0]`, guarded by the non-empty-label
 invariant of (3)) are not transcribed with checks; they, and the error renderer, are tied by running every operation of
 every suite under `catch_unwind` in a build with overflow checks and debug assertions (oracle C07 = a `panic` line). -/
-
-theorem C07_panic_site_ledger : Generated.panicSites = [([115, 114, 99, 47, 112, 97, 114, 115, 101, 114, 46, 114, 115], 11, 0, 14), ([115, 114, 99, 47, 114, 111, 117, 116, 101, 114, 46, 114, 115], 0, 17, 0), ([115, 114, 99, 47, 110, 111, 100, 101, 47, 105, 110, 115, 101, 114, 116, 46, 114, 115], 8, 0, 0), ([115, 114, 99, 47, 110, 111, 100, 101, 47, 102, 105, 110, 100, 46, 114, 115], 3, 0, 0), ([115, 114, 99, 47, 110, 111, 100, 101, 47, 100, 101, 108, 101, 116, 101, 46, 114, 115], 6, 0, 0), ([115, 114, 99, 47, 110, 111, 100, 101, 47, 115, 101, 97, 114, 99, 104, 46, 114, 115], 21, 1, 2), ([115, 114, 99, 47, 110, 111, 100, 101, 47, 111, 112, 116, 105, 109, 105, 122, 101, 46, 114, 115], 0, 0, 0), ([115, 114, 99, 47, 110, 111, 100, 101, 47, 100, 105, 115, 112, 108, 97, 121, 46, 114, 115], 0, 0, 7), ([115, 114, 99, 47, 110, 111, 100, 101, 115, 46, 114, 115], 2, 0, 0), ([115, 114, 99, 47, 101, 114, 114, 111, 114, 115, 47, 116, 101, 109, 112, 108, 97, 116, 101, 46, 114, 115], 0, 0, 0)] := by decide
 
 theorem C07_registry_grows (r : Router) (c : Call) (name : Bytes) (h : r.registry.any (·.1 == name) = true) :
     (r.step c).registry.any (·.1 == name) = true := by
